@@ -1,3 +1,5 @@
+pub mod alloc;
+pub mod corpus;
 pub mod gen;
 pub mod httpparse;
 pub mod infra;
@@ -7,3 +9,6 @@ pub mod l1;
 pub mod refmodel;
 pub mod report;
 pub mod runner;
+
+#[global_allocator]
+static GLOBAL: alloc::Counting = alloc::Counting;
